@@ -402,6 +402,7 @@ impl Property for C03 {
             expect: serde_json::json!({ "value": expected.to_string() }),
             shape: h.0,
             est_len: 100,
+            min_quantum: 0,
         }
     }
     fn monitor(&self, _scn: &Scenario) -> Box<dyn Monitor + Send> {
